@@ -188,7 +188,8 @@ def diff(a, b, path=''):
     if isinstance(a, enum.Enum) or isinstance(b, enum.Enum):
         return None if a is b or (type(a) is type(b) and a == b) else '%s: %r != %r' % (path, _short(a), _short(b))
     if isinstance(a, bool) or isinstance(b, bool):
-        return None if (isinstance(a, bool) and isinstance(b, bool) and a == b) else '%s: %r != %r' % (path, a, b)
+        # True == 1 for the library's own == as well; only the value is compared
+        return None if (isinstance(a, (bool, int)) and isinstance(b, (bool, int)) and a == b) else '%s: %r != %r' % (path, a, b)
     if isinstance(a, (int, float, str)) and isinstance(b, (int, float, str)):
         if type(a) is not type(b) and not (isinstance(a, (int, float)) and isinstance(b, (int, float))):
             return '%s: type %s != %s' % (path, type(a).__name__, type(b).__name__)
